@@ -36,6 +36,8 @@ package fsim
 //@   callsites MultiWriter 1
 //@   callassert MultiWriter#1: @sinks len(arg0) == 2 && unwrap(arg0[0]) == d.temp && u(arg0[1]) == u(d.hash)
 //@   callassert Write#1: @chunk bytes(arg1) == bytes(chunk)
+//@   assume wasreset(d) != True()
+//@   callassert Encode#*: @cleanup wasreset(d) == True()
 //@   ensures @announce messageName != "data" ==> d.written == old(d.written) && u(d.temp) == old(u(d.temp))
 //@   ensures @keepdigest messageName == "name" || messageName == "length" ==> u(d.sha384) == old(u(d.sha384))
 //@   ensures @keeplength messageName == "name" || messageName == "sha-384" ==> d.length == old(d.length)
@@ -54,8 +56,9 @@ package fsim
 //@   props C17 C10(sweep)
 //@   sweep bounds,panic,make
 //@   requires @hash u.hash != nil && u.temp != nil && !implements(u.hash, "fdo.fallibleHash")
+//@   requires @complete u.written >= u.length && u.length > 0 && len(u.sha384) > 0
 //@   callsites Rename 1
-//@   callassert Rename#1: @length u.written <= u.length
+//@   callassert Rename#1: @length u.written == u.length
 //@   callassert Rename#1: @digest bytes(u.sha384) == digest(absorbed(u.hash))
 
 // ---- wget (device fetches a URL) -----------------------------------------------------------------
@@ -109,3 +112,13 @@ package fsim
 //@   callassert WriteChunk#1: @body u(arg2) == u(messageBody)
 //@   ensures @noskip ? err == nil && n > 0 ==> queued(producer) == True()
 //@   ensures @advance ? err == nil ==> d.index == old(d.index) + int64(n)
+
+// an upload is finalised only when a digest was announced, a positive length was announced
+// and at least that many bytes were received (finalize itself rejects more)
+//@ func fsim.UploadRequest.ProduceInfo
+//@   params u ctx producer
+//@   props C17 C10(sweep)
+//@   sweep bounds,panic,make
+//@   requires @hash u.hash != nil && !implements(u.hash, "fdo.fallibleHash")
+//@   requires @temp u.written > 0 ==> u.temp != nil
+//@   callsites finalize 1
